@@ -12,6 +12,7 @@ import Proofs.Wrappers
 import Proofs.HookTrace
 import Proofs.HookFacts
 import Proofs.Stack
+import Proofs.DepthBound
 namespace Scale.C11
 open Scale
 
@@ -149,5 +150,21 @@ theorem depth_limit_unaffected_by_counting {α : Type} (L : Nat) (p : Prog α) (
     (run (countedInput (depthInput L sliceInput)) p ((bs, 0), c)).1 = (run (depthInput L sliceInput) p (bs, 0)).1 ∧
     (run (countedInput (depthInput L sliceInput)) p ((bs, 0), c)).2.1 = (run (depthInput L sliceInput) p (bs, 0)).2 :=
   counted_transparent (depthInput L sliceInput) rfl p (bs, 0) c
+
+
+/-- **Stack safety, logical core — for every byte string.** Under a depth limit `L` the decoder never
+    has more than `L` container levels open at once: for every decoder program, every inner input and
+    every input bytes (valid, hostile, arbitrarily deep; successful decode or not), the
+    `descend_ref` calls the limiter accepted were never nested deeper than `L`. (Each level of a
+    recursive type descends once, so the number of decoder frames of heap-allocating containers is
+    bounded by `L` whatever the input; machine stack bytes per frame are runtime.) -/
+theorem open_depth_never_exceeds_limit {σ α : Type} (I : InputOps σ) (L : Nat) (p : Prog α) (s : σ) :
+    (depthFold (run (traceRec (depthInput L I)) p ((s, 0), [])).2.2 (0, 0)).2 ≤ L :=
+  (dep_run I L p ((s, 0), []) ⟨rfl, Nat.zero_le _⟩).2
+
+/-- e.g. 40 nested one-element vectors under a limit of 3: rejected with 3 levels open at most. -/
+example : (depthFold (run (traceRec (depthInput 3 sliceInput))
+    (Impl.decodeP (.seq .vec 24 (.seq .vec 24 (.seq .vec 24 (.seq .vec 24 (.seq .vec 1 (.prim .u8)))))))
+    (([4, 4, 4, 4, 4, 7], 0), [])).2.2 (0, 0)).2 = 3 := by decide
 
 end Scale.C11
